@@ -11,10 +11,16 @@ package sarama
 //     model enumerated, so the int32 arithmetic is exercised at its corners. Behaviours that
 //     can die in unbounded recursion (custom fallback partitioner + keyless message) run in
 //     a subprocess so that the crash becomes an event.
+//   - spec/PartitionerPair.tla schedules (two instances handed out by ONE constructor value,
+//     their calls split into Reset+Write / Sum32 and interleaved) are replayed on two real
+//     instances from two goroutines; the injected hash.Hash32 can be held inside Write, which
+//     makes the interleaving deterministic.
 //   - spec/PartitionerRouting.tla scenarios (a topic with leaderless partitions, a
 //     partitioner kind, a few messages) are run on a REAL AsyncProducer against a MockBroker;
 //     the partitioner is wrapped to log what it was offered and what it chose, the broker
 //     logs in which partition every message arrived, the driver logs successes and errors.
+//     Scenarios with a recovery ("flip") first run with every partition leaderless, then the
+//     broker's metadata gets leaders back while the producer is idle, then more messages follow.
 //
 // Everything is written as NDJSON for spec/PartitionerTrace.tla; nothing is judged here.
 
@@ -37,6 +43,8 @@ import (
 	"sync"
 	"testing"
 	"time"
+
+	"github.com/eapache/go-resiliency/breaker"
 )
 
 // ---------------------------------------------------------------- case formats
@@ -209,7 +217,7 @@ func vpResetFields(c vpCfg) kv {
 
 func vpCallFields(call vpCall, h int64, ret int32, errs string, sub bool) kv {
 	return kv{"kk": call.Key.K, "h": h, "name": call.Key.Name, "part": call.Part, "n": call.N,
-		"ret": ret, "err": errs, "xk": call.Xk, "xv": call.Xv, "sub": sub}
+		"ret": ret, "err": errs, "xk": call.Xk, "xv": call.Xv, "sub": sub, "inst": 0, "ovl": false, "fact": -1}
 }
 
 func vpNeedsSubprocess(c vpCase) bool {
@@ -367,6 +375,178 @@ func vpTail(s string, n int) string {
 	return strings.Join(ls, "\n")
 }
 
+// ---------------------------------------------------------------- two instances of one constructor
+
+type vpStep struct {
+	Ph   string `json:"ph"`
+	Inst int    `json:"inst"`
+	Key  vpKey  `json:"key"`
+	N    int32  `json:"n"`
+	Xv   int64  `json:"xv"`
+}
+
+type vpPairCase struct {
+	Fam   string   `json:"fam"`
+	Cfg   vpCfg    `json:"cfg"`
+	Steps []vpStep `json:"steps"`
+}
+
+type vpGate struct {
+	entered chan struct{}
+	release chan struct{}
+}
+
+// vpGateCtl is shared by all hashers one factory hands out: it counts the factory invocations
+// and holds a Write whose bytes a gate was registered for until that gate is released.
+type vpGateCtl struct {
+	mu    sync.Mutex
+	gates map[string]*vpGate
+	nfact int
+}
+
+func (c *vpGateCtl) take(k string) *vpGate {
+	c.mu.Lock()
+	defer c.mu.Unlock()
+	g := c.gates[k]
+	delete(c.gates, k)
+	return g
+}
+
+// vpGateHash32 behaves like vpFakeHash32 (same Sum32) and can be held inside Write.
+type vpGateHash32 struct {
+	ctl   *vpGateCtl
+	mu    sync.Mutex
+	inner vpFakeHash32
+}
+
+func (f *vpGateHash32) Write(p []byte) (int, error) {
+	f.mu.Lock()
+	n, err := f.inner.Write(p)
+	f.mu.Unlock()
+	if g := f.ctl.take(string(p)); g != nil {
+		close(g.entered)
+		<-g.release
+	}
+	return n, err
+}
+func (f *vpGateHash32) Reset()         { f.mu.Lock(); f.inner.Reset(); f.mu.Unlock() }
+func (f *vpGateHash32) Size() int      { return 4 }
+func (f *vpGateHash32) BlockSize() int { return 1 }
+func (f *vpGateHash32) Sum(b []byte) []byte {
+	v := f.Sum32()
+	return append(b, byte(v>>24), byte(v>>16), byte(v>>8), byte(v))
+}
+func (f *vpGateHash32) Sum32() uint32 {
+	f.mu.Lock()
+	defer f.mu.Unlock()
+	return f.inner.Sum32()
+}
+
+type vpPairRes struct {
+	ret int32
+	err string
+}
+
+// vpReplayPair builds ONE constructor value as an application does (Config.Producer.Partitioner),
+// asks it for two partitioners and drives them from two goroutines in the order of the schedule.
+// emit is called once per finished call.
+func vpReplayPair(c vpPairCase, emit func(f kv)) {
+	ctl := &vpGateCtl{gates: map[string]*vpGate{}}
+	factory := func() hash.Hash32 {
+		ctl.mu.Lock()
+		ctl.nfact++
+		ctl.mu.Unlock()
+		return &vpGateHash32{ctl: ctl}
+	}
+	var ctor PartitionerConstructor
+	if c.Cfg.Ctor == "customhash" {
+		ctor = NewCustomHashPartitioner(factory)
+	} else {
+		var opts []HashPartitionerOption
+		if c.Cfg.Abs {
+			opts = append(opts, WithAbsFirst())
+		}
+		opts = append(opts, WithCustomHashFunction(factory))
+		if c.Cfg.Fb {
+			fb, _ := NewReferenceHashPartitioner("fallback").(*hashPartitioner)
+			opts = append(opts, WithCustomFallbackPartitioner(fb))
+		}
+		ctor = NewCustomPartitioner(opts...)
+	}
+	insts := [2]Partitioner{ctor("t0"), ctor("t1")}
+	type pending struct {
+		gate *vpGate
+		res  chan vpPairRes
+		call vpCall
+		h    int64
+		ovl  bool
+	}
+	var pend [2]*pending
+	for _, st := range c.Steps {
+		i := st.Inst & 1
+		switch st.Ph {
+		case "begin":
+			call := vpCall{Key: st.Key, N: st.N, Xk: "exact", Xv: st.Xv}
+			m, h := vpMessage(c.Cfg, call)
+			kb, _ := m.Key.Encode()
+			g := &vpGate{entered: make(chan struct{}), release: make(chan struct{})}
+			ctl.mu.Lock()
+			ctl.gates[string(kb)] = g
+			ctl.mu.Unlock()
+			pd := &pending{gate: g, res: make(chan vpPairRes, 1), call: call, h: h, ovl: pend[1-i] != nil}
+			if pend[1-i] != nil {
+				pend[1-i].ovl = true
+			}
+			pend[i] = pd
+			p := insts[i]
+			go func() {
+				defer func() {
+					if r := recover(); r != nil {
+						pd.res <- vpPairRes{-1, fmt.Sprintf("panic: %v", r)}
+					}
+				}()
+				ret, err := p.Partition(m, st.N)
+				if err != nil {
+					pd.res <- vpPairRes{ret, "error: " + err.Error()}
+					return
+				}
+				pd.res <- vpPairRes{ret, ""}
+			}()
+			select {
+			case <-g.entered:
+			case r := <-pd.res: // the call finished without ever writing these bytes
+				pd.res <- r
+			case <-time.After(10 * time.Second):
+			}
+		case "end":
+			pd := pend[i]
+			if pd == nil {
+				continue
+			}
+			pend[i] = nil
+			close(pd.gate.release)
+			var r vpPairRes
+			select {
+			case r = <-pd.res:
+			case <-time.After(10 * time.Second):
+				r = vpPairRes{-1, "hang: Partition did not return within 10s"}
+			}
+			f := vpCallFields(pd.call, pd.h, r.ret, r.err, false)
+			f["inst"] = i
+			f["ovl"] = pd.ovl
+			ctl.mu.Lock()
+			f["fact"] = ctl.nfact
+			ctl.mu.Unlock()
+			emit(f)
+		}
+	}
+	for i := range pend { // never leave a goroutine parked
+		if pend[i] != nil {
+			close(pend[i].gate.release)
+		}
+	}
+}
+
 // ---------------------------------------------------------------- family 1 driver
 
 func TestVerifPartitioner(t *testing.T) {
@@ -378,10 +558,19 @@ func TestVerifPartitioner(t *testing.T) {
 	defer rec.Close()
 
 	var inproc, sub []vpCase
+	var pairs []vpPairCase
 	for _, line := range lines {
 		var c vpCase
 		if err := json.Unmarshal([]byte(line), &c); err != nil {
 			t.Fatalf("bad case %q: %v", line, err)
+		}
+		if c.Fam == "pair" {
+			var pc vpPairCase
+			if err := json.Unmarshal([]byte(line), &pc); err != nil {
+				t.Fatalf("bad case %q: %v", line, err)
+			}
+			pairs = append(pairs, pc)
+			continue
 		}
 		if c.Fam != "part" {
 			continue
@@ -457,6 +646,30 @@ func TestVerifPartitioner(t *testing.T) {
 		}
 	}
 
+	// --- two instances of one constructor, interleaved
+	npairs, npaircalls, novl := 0, 0, 0
+	var pairSample interface{}
+	for _, pc := range pairs {
+		rec.Reset(vpResetFields(pc.Cfg))
+		ninst++
+		npairs++
+		byCtor[pc.Cfg.Ctor]++
+		vpReplayPair(pc, func(f kv) {
+			rec.Ev("call", f)
+			ncalls++
+			npaircalls++
+			if f["ovl"] == true {
+				novl++
+				if pairSample == nil {
+					pairSample = kv{"cfg": pc.Cfg, "schedule": pc.Steps, "call": f}
+				}
+			}
+		})
+	}
+	if pairSample != nil {
+		samples = append(samples, pairSample)
+	}
+
 	wg.Wait()
 	nspawn := 0
 	for w := 0; w < workers; w++ {
@@ -493,7 +706,8 @@ func TestVerifPartitioner(t *testing.T) {
 	}
 	vWriteJSON(t, "part.summary.json", kv{"behaviours": ninst, "calls": ncalls, "in_subprocess": nsub,
 		"crashes": ncrash, "identical_crash_prefix_not_rerun": ndedup, "worker_processes": nspawn, "by_constructor": byCtor,
-		"distinct_calls": len(distinct), "samples": samples})
+		"distinct_calls": len(distinct), "pair_schedules": npairs, "pair_calls": npaircalls, "pair_calls_overlapping": novl,
+		"samples": samples})
 }
 
 // ---------------------------------------------------------------- family 2: producer
@@ -510,7 +724,10 @@ type vprMsg struct {
 }
 
 type vprCase struct {
-	Fam        string   `json:"fam"`
+	Fam         string  `json:"fam"`
+	Flip        bool    `json:"flip"`        // leaders come back after the first P1 messages
+	P1          int     `json:"p1"`
+	Leaderless2 []int32 `json:"leaderless2"` // leaderless partitions after the recovery
 	Np         int32    `json:"np"`
 	Leaderless []int32  `json:"leaderless"`
 	Pk         string   `json:"pk"`
@@ -525,6 +742,13 @@ type vprScen struct {
 	mu     *sync.Mutex // of the batch: orders the events of all its scenarios
 	events []kv
 	evname []string
+	curLL  []int32 // what the broker's metadata currently reports as leaderless (under mu)
+}
+
+func (s *vprScen) leaderless() []int32 {
+	s.mu.Lock()
+	defer s.mu.Unlock()
+	return s.curLL
 }
 
 func (s *vprScen) ev(name string, f kv) {
@@ -663,8 +887,9 @@ func (q *vprQuiet) Fatal(a ...interface{})            { q.add(fmt.Sprint(a...)) 
 func (q *vprQuiet) Fatalf(f string, a ...interface{}) { q.add(fmt.Sprintf(f, a...)) }
 
 // vprErrClass sorts the error of an error event: "partitioner" (the choice was rejected or the
-// partitioner failed), "leader" (no leader / no partition), "transport" (connection trouble between
-// client and mock broker: not a statement about routing), "other".
+// partitioner failed), "leader" (no leader / no partition), "breaker" (a circuit breaker of the producer
+// was open), "transport" (connection trouble between client and mock broker: not a statement about
+// routing), "other".
 func vprErrClass(err error) string {
 	var ne net.Error
 	switch {
@@ -672,6 +897,8 @@ func vprErrClass(err error) string {
 		return "partitioner"
 	case errors.Is(err, ErrLeaderNotAvailable) || errors.Is(err, ErrUnknownTopicOrPartition):
 		return "leader"
+	case errors.Is(err, breaker.ErrBreakerOpen):
+		return "breaker"
 	case errors.Is(err, ErrNotConnected) || errors.Is(err, ErrOutOfBrokers) || errors.Is(err, io.EOF) ||
 		errors.Is(err, io.ErrUnexpectedEOF) || errors.As(err, &ne) || errors.Is(err, ErrClosedClient) ||
 		strings.Contains(err.Error(), "connection reset") || strings.Contains(err.Error(), "broken pipe"):
@@ -695,7 +922,7 @@ func vprRunBatch(t *testing.T, scens []*vprScen, panics *vprQuiet) string {
 
 	addTopic := func(resp *MetadataResponse, s *vprScen) {
 		ll := map[int32]bool{}
-		for _, p := range s.c.Leaderless {
+		for _, p := range s.leaderless() {
 			ll[p] = true
 		}
 		for p := int32(0); p < s.c.Np; p++ {
@@ -794,60 +1021,103 @@ func vprRunBatch(t *testing.T, scens []*vprScen, panics *vprQuiet) string {
 		return "setup: " + err.Error()
 	}
 
-	total := 0
-	for si, s := range scens {
-		for k, m := range s.c.Msgs {
-			id := k + 1
-			pm := &ProducerMessage{Topic: s.topic, Partition: m.Part, Value: StringEncoder(strconv.Itoa(id)),
-				Metadata: &vprMeta{scen: s, id: id, sc: m.Sc}}
-			if m.Keyed {
-				pm.Key = vprKeyFor(s.c.Pk, s.c.Np, m.Want, si*8+k)
-			}
-			s.ev("submit", kv{"id": id, "keyed": m.Keyed, "part": m.Part, "sc": m.Sc, "xout": m.Xout, "xtarget": m.Xtarget})
-			select {
-			case producer.Input() <- pm:
-				total++
-			case <-time.After(20 * time.Second):
-				s.ev("outcome", kv{"id": id, "kind": "none", "part": -1, "err": "hang: Input() did not accept the message within 20s", "cls": "-"})
+	note := ""
+	// one round = submit the given messages of every scenario, then wait for all their outcomes
+	round := func(from func(s *vprScen) (int, int)) {
+		total := 0
+		for si, s := range scens {
+			lo, hi := from(s)
+			for k := lo; k < hi && k < len(s.c.Msgs); k++ {
+				m := s.c.Msgs[k]
+				id := k + 1
+				pm := &ProducerMessage{Topic: s.topic, Partition: m.Part, Value: StringEncoder(strconv.Itoa(id)),
+					Metadata: &vprMeta{scen: s, id: id, sc: m.Sc}}
+				if m.Keyed {
+					pm.Key = vprKeyFor(s.c.Pk, s.c.Np, m.Want, si*8+k%8)
+				}
+				s.ev("submit", kv{"id": id, "keyed": m.Keyed, "part": m.Part, "sc": m.Sc, "xout": m.Xout, "xtarget": m.Xtarget})
+				select {
+				case producer.Input() <- pm:
+					total++
+				case <-time.After(20 * time.Second):
+					s.ev("outcome", kv{"id": id, "kind": "none", "part": -1, "err": "hang: Input() did not accept the message within 20s", "cls": "-"})
+				}
 			}
 		}
+		vprHangMu.Lock()
+		patience := 15 * time.Second
+		if vprHangs >= 1 {
+			patience = 3 * time.Second
+		}
+		vprHangMu.Unlock()
+		got := 0
+		timer := time.NewTimer(patience)
+		defer timer.Stop()
+		for got < total {
+			select {
+			case m := <-producer.Successes():
+				meta := m.Metadata.(*vprMeta)
+				meta.scen.ev("outcome", kv{"id": meta.id, "kind": "success", "part": m.Partition, "err": "", "cls": "-"})
+				got++
+			case e := <-producer.Errors():
+				meta := e.Msg.Metadata.(*vprMeta)
+				meta.scen.ev("outcome", kv{"id": meta.id, "kind": "error", "part": e.Msg.Partition, "err": e.Err.Error(), "cls": vprErrClass(e.Err)})
+				got++
+			case <-timer.C:
+				if note == "" {
+					note = fmt.Sprintf("hang: %d of %d messages without success or error event after %v", total-got, total, patience)
+				}
+				vprHangMu.Lock()
+				vprHangs++
+				vprHangMu.Unlock()
+				got = total
+				continue
+			}
+			if !timer.Stop() {
+				select {
+				case <-timer.C:
+				default:
+				}
+			}
+			timer.Reset(patience)
+		}
 	}
-	note := ""
+	// round 1: everything up to the recovery (all messages of a scenario without one)
+	anyFlip := false
+	round(func(s *vprScen) (int, int) {
+		if s.c.Flip {
+			anyFlip = true
+			return 0, s.c.P1
+		}
+		return 0, len(s.c.Msgs)
+	})
+	if anyFlip {
+		// the producer is idle: leaders come back in the broker's metadata; the client has to notice by itself
+		for _, s := range scens {
+			if s.c.Flip {
+				ll2 := s.c.Leaderless2
+				if ll2 == nil {
+					ll2 = []int32{}
+				}
+				s.mu.Lock()
+				s.curLL = ll2
+				s.mu.Unlock()
+				s.ev("leaders", kv{"leaderless": ll2})
+			}
+		}
+		round(func(s *vprScen) (int, int) {
+			if s.c.Flip {
+				return s.c.P1, len(s.c.Msgs)
+			}
+			return 0, 0
+		})
+	}
 	vprHangMu.Lock()
-	patience := 15 * time.Second
 	closePatience := 5 * time.Second
 	if vprHangs >= 1 {
-		patience, closePatience = 3*time.Second, time.Second
+		closePatience = time.Second
 	}
 	vprHangMu.Unlock()
-	got := 0
-	timer := time.NewTimer(patience)
-	for got < total {
-		select {
-		case m := <-producer.Successes():
-			meta := m.Metadata.(*vprMeta)
-			meta.scen.ev("outcome", kv{"id": meta.id, "kind": "success", "part": m.Partition, "err": "", "cls": "-"})
-			got++
-		case e := <-producer.Errors():
-			meta := e.Msg.Metadata.(*vprMeta)
-			meta.scen.ev("outcome", kv{"id": meta.id, "kind": "error", "part": e.Msg.Partition, "err": e.Err.Error(), "cls": vprErrClass(e.Err)})
-			got++
-		case <-timer.C:
-			note = fmt.Sprintf("hang: %d of %d messages without success or error event after %v", total-got, total, patience)
-			vprHangMu.Lock()
-			vprHangs++
-			vprHangMu.Unlock()
-			got = total
-			continue
-		}
-		if !timer.Stop() {
-			select {
-			case <-timer.C:
-			default:
-			}
-		}
-		timer.Reset(patience)
-	}
 	closed := make(chan struct{})
 	go func() {
 		producer.AsyncClose()
@@ -895,7 +1165,7 @@ func TestVerifPartitionerProducer(t *testing.T) {
 		if c.Fam != "prod" {
 			continue
 		}
-		all = append(all, &vprScen{c: c, topic: fmt.Sprintf("s%d", i)})
+		all = append(all, &vprScen{c: c, topic: fmt.Sprintf("s%d", i), curLL: c.Leaderless})
 	}
 	const batch = 80
 	const par = 6
@@ -927,9 +1197,10 @@ func TestVerifPartitionerProducer(t *testing.T) {
 	}
 	wg.Wait()
 
-	nmsgs, nev, hangs, ntransport := 0, 0, 0, 0
+	nmsgs, nev, hangs, ntransport, nflip, nbreaker := 0, 0, 0, 0, 0, 0
 	byPk := map[string]int{}
 	var samples []interface{}
+	var flipSample interface{}
 	for bi, b := range batches {
 		if strings.HasPrefix(notes[bi], "setup:") {
 			t.Fatalf("producer scenario batch could not be set up: %s", notes[bi])
@@ -950,9 +1221,15 @@ func TestVerifPartitionerProducer(t *testing.T) {
 				if e["cls"] == "transport" {
 					ntransport++
 				}
+				if e["cls"] == "breaker" {
+					nbreaker++
+				}
 			}
 			if len(samples) < 3 && len(ll) > 0 && s.c.Np > 1 && (s.c.Pk == "hash" || s.c.Pk == "cust_keyed") {
 				samples = append(samples, kv{"scenario": s.c, "events": append([]kv(nil), s.events...)})
+			}
+			if flipSample == nil && s.c.Flip && s.c.Np > 1 && s.c.Pk == "roundrobin" {
+				flipSample = kv{"scenario": s.c, "events": append([]kv(nil), s.events...)}
 			}
 			s.mu.Unlock()
 			note := notes[bi]
@@ -962,8 +1239,14 @@ func TestVerifPartitionerProducer(t *testing.T) {
 			rec.Ev("done", kv{"msgs": len(s.c.Msgs), "note": note})
 			nmsgs += len(s.c.Msgs)
 			byPk[s.c.Pk]++
+			if s.c.Flip {
+				nflip++
+			}
 		}
 	}
+	if flipSample != nil {
+		samples = append([]interface{}{flipSample}, samples...)
+	}
 	vWriteJSON(t, "prod.summary.json", kv{"scenarios": len(all), "messages": nmsgs, "events": nev, "batches": len(batches),
-		"batches_with_hang": hangs, "transport_errors": ntransport, "panics": panics.msgs, "by_partitioner": byPk, "samples": samples})
+		"batches_with_hang": hangs, "transport_errors": ntransport, "recovery_scenarios": nflip, "breaker_open_errors": nbreaker, "panics": panics.msgs, "by_partitioner": byPk, "samples": samples})
 }
